@@ -1,7 +1,8 @@
 """C05 — row reductions and argmax/argmin: correspondence of the implementation with the Coq models."""
-from harness import fam_raops
+from harness import fam_raops, fam_ra2
 TRUSTED = fam_raops.TRUSTED
 ASSUME = ["integer element values (element operations and result dtypes are numpy's own; floats only with exactly representable results)"]
 RULE = "operations: reduce argmax argmin; " + fam_raops.RULE
 def run(R, tier, rng):
     fam_raops.run_family(R, tier, rng, set("reduce argmax argmin".split()))
+    fam_ra2.run_c05(R, tier, rng)
